@@ -21,6 +21,7 @@ use crate::txn::SENTINEL;
 use crate::with_metric;
 
 pub struct Plan {
+    pub use_tmpdir: bool,
     pub metric: Metric,
     pub dim: usize,
     pub idx: u16,
@@ -49,7 +50,7 @@ pub fn plan(seed: u64) -> Plan {
             (ops, [None, Some(2usize), Some(3)][rng.gen_range(0..3)], [None, Some(1usize), Some(2)][rng.gen_range(0..3)], rng.gen())
         })
         .collect();
-    Plan { metric, dim, idx, versions }
+    Plan { use_tmpdir: seed % 2 == 0, metric, dim, idx, versions }
 }
 
 pub enum Kill {
@@ -70,7 +71,19 @@ fn die() -> ! {
 
 /// Runs the plan on `dir`. `on_commit(v, dump-before-commit)` is called for every version (golden run).
 /// Returns (total polls, total ops).
+pub fn tmp_of(dir: &std::path::Path) -> std::path::PathBuf {
+    dir.join("arroy-tmp")
+}
+
 pub fn run_plan(p: &Plan, dir: &std::path::Path, kill: &Kill, report: &mut dyn FnMut(&str), on_version: &mut dyn FnMut(usize, &decode::RawDump)) -> (u64, u64) {
+    run_plan_from(p, dir, kill, report, on_version, 1)
+}
+
+/// versions `first..` of the plan (a resumed process continues after the version it finds)
+pub fn run_plan_from(p: &Plan, dir: &std::path::Path, kill: &Kill, report: &mut dyn FnMut(&str), on_version: &mut dyn FnMut(usize, &decode::RawDump), first: usize) -> (u64, u64) {
+    if p.use_tmpdir {
+        std::fs::create_dir_all(tmp_of(dir)).unwrap();
+    }
     let env = open_env(dir, 256 * 1024 * 1024);
     let db: RawDb = {
         let mut w = env.write_txn().unwrap();
@@ -86,6 +99,9 @@ pub fn run_plan(p: &Plan, dir: &std::path::Path, kill: &Kill, report: &mut dyn F
     };
     for (vi, (ops, n_trees, split_after, bseed)) in p.versions.iter().enumerate() {
         let version = vi + 1;
+        if version < first {
+            continue;
+        }
         let mut w = env.write_txn().unwrap();
         let mut sv = vec![0f32; p.dim];
         sv[0] = version as f32;
@@ -118,7 +134,10 @@ pub fn run_plan(p: &Plan, dir: &std::path::Path, kill: &Kill, report: &mut dyn F
         nops += 1;
         with_metric!(p.metric, D, {
             let adb: arroy::Database<D> = db.remap_types();
-            let wr = arroy::Writer::<D>::new(adb, p.idx, p.dim);
+            let mut wr = arroy::Writer::<D>::new(adb, p.idx, p.dim);
+            if p.use_tmpdir {
+                wr.set_tmpdir(tmp_of(dir));
+            }
             let mut rng = StdRng::seed_from_u64(*bseed);
             let mut b = wr.builder(&mut rng);
             if let Some(n) = n_trees {
@@ -170,11 +189,12 @@ pub fn child(args: &[String]) {
     rayon::ThreadPoolBuilder::new().num_threads(1).build_global().ok();
     let p = plan(seed);
     let out = std::io::stdout();
-    run_plan(&p, std::path::Path::new(&dir), &kill, &mut |s| {
+    let first = if mode == "resume" { at as usize } else { 1 };
+    run_plan_from(&p, std::path::Path::new(&dir), &kill, &mut |s| {
         let mut o = out.lock();
         writeln!(o, "{s}").unwrap();
         o.flush().unwrap();
-    }, &mut |_, _| {});
+    }, &mut |_, _| {}, first);
 }
 
 pub fn parent(seed: u64, hno: usize, thorough: bool) -> (Vec<Value>, usize) {
@@ -271,8 +291,44 @@ pub fn parent(seed: u64, hno: usize, thorough: bool) -> (Vec<Value>, usize) {
                 Err(e) => crate::exec::err_class(&e)["c"].as_str().unwrap().to_string(),
             }
         });
+        let tmp_left = std::fs::read_dir(tmp_of(dir.path())).map(|d| d.count() as i64).unwrap_or(0);
         out.push(json!({"ev":"C.Recovered","h":hno as i64,"seq": at.min(i32::MAX as u64) as i64,"mode":mode,"killed":killed,
-            "acked":acked,"inflight": if started > acked { started } else { -1 },"v":v,"st":st,"open":open,"q":q,"foreign":foreign}));
+            "acked":acked,"inflight": if started > acked { started } else { -1 },"v":v,"st":st,"open":open,"q":q,"foreign":foreign,
+            "tmp_left": tmp_left}));
+        // a new process carries on from the recovered version: it must end where the golden run ended
+        drop(rtxn);
+        drop(env);
+        let nv = p.versions.len() as i64;
+        if killed && v >= 0 && v < nv {
+            let st2 = std::process::Command::new(&exe)
+                .args(["crash-child", "--dir", dir.path().to_str().unwrap(), "--seed", &seed.to_string(), "--mode", "resume", "--at", &(v + 1).to_string()])
+                .stdout(std::process::Stdio::null())
+                .stderr(std::process::Stdio::null())
+                .status()
+                .unwrap();
+            let env = open_env(dir.path(), 256 * 1024 * 1024);
+            let mut w = env.write_txn().unwrap();
+            let db: RawDb = env.create_database::<Bytes, Bytes>(&mut w, None).unwrap();
+            w.commit().unwrap();
+            let rtxn = env.read_txn().unwrap();
+            let d = dump(db, &rtxn);
+            let st = proj(&mut ctx, &d);
+            let dec = decode::decode_dump(&d, &|_| Some(p.metric));
+            let v2 = match dec.get(&p.idx).and_then(|ir| ir.leaves.get(&SENTINEL)) {
+                Some(leaf) if leaf.vector.len() >= 4 => f32::from_ne_bytes(leaf.vector[0..4].try_into().unwrap()) as i64,
+                _ => 0,
+            };
+            let q = if v2 > 0 { search::search_event(&mut ctx, &rtxn, db, p.idx, p.metric, p.dim, at ^ seed ^ 9) } else { json!({"open":"none"}) };
+            let open = with_metric!(p.metric, D, {
+                let adb: arroy::Database<D> = db.remap_types();
+                match arroy::Reader::<D>::open(&rtxn, p.idx, adb) {
+                    Ok(_) => "Ok".to_string(),
+                    Err(e) => crate::exec::err_class(&e)["c"].as_str().unwrap().to_string(),
+                }
+            });
+            out.push(json!({"ev":"C.Resumed","h":hno as i64,"seq": at.min(i32::MAX as u64) as i64,"from": v + 1,"exit_ok": st2.success(),
+                "v": v2, "expect": nv, "st": st, "open": open, "q": q, "foreign": 0}));
+        }
     }
     (out, npoints)
 }
